@@ -5,6 +5,7 @@ CHECK_DEADLOCK FALSE
 CONSTANTS
  HonorsHost = FALSE
  SchemeBound = TRUE
+ PgNoMirrors = TRUE
  FoldCase = FALSE
  StripOnRedirect = TRUE
  MaxFaults = 3
